@@ -46,6 +46,7 @@ import GeoProofs.Lemmas.C08QF64
 import GeoProofs.Lemmas.QHULMain
 import GeoProofs.Lemmas.QHULUniq
 import GeoProofs.Lemmas.QHULDegen
+import GeoProofs.Lemmas.TRAN2Hull
 import Mathlib.Tactic.Linarith
 import Mathlib.Tactic.Ring
 
@@ -1177,4 +1178,18 @@ example : convexHull id [⟨2, 2⟩, ⟨0, 0⟩, ⟨1, 1⟩] = [⟨0, 0⟩, ⟨2
     convexHull id [⟨1, 2⟩, ⟨1, 2⟩, ⟨1, 2⟩, ⟨1, 2⟩, ⟨1, 2⟩] = [⟨1, 2⟩, ⟨1, 2⟩] := by
   decide +kernel
 
+/-! ### tie to the source -/
+
+/-- [E2] (translator tie) `utils::lex_cmp` (x first, then y) and the comparator closure of `graham_hull` (orientation about the
+head point: counter-clockwise = Greater, clockwise = Less, collinear = by squared distance from the head) are, in the model, the
+terms `translator/rs2lean.py` regenerates on every run from utils.rs / graham.rs (`GeoModel/Gen/HullGen.lean`): `lexLt` is
+"Less" of the regenerated `lex_cmp`, `grahamLe rnd` is "not Greater" of the regenerated comparator with the kernel's
+`square_euclidean_distance` instantiated by the model's rounded `dist2r rnd`, for every rounding function. A changed arm,
+operand order or comparison changes the regenerated definition and this theorem stops checking. -/
+theorem hullComparators_eq_source :
+    (∀ p q : Pt, (Gen.lexCmp p q == .lt) = lexLt p q) ∧
+    (∀ (rnd : Rat → Rat) (head q r : Pt), (Gen.grahamCmp (dist2r rnd) head q r != .gt) = grahamLe rnd head q r) :=
+  ⟨Geo.Proofs.TRAN2Hull.lexCmp_lt, Geo.Proofs.TRAN2Hull.grahamCmp_le⟩
+
 end Geo.Proofs.C08
+
